@@ -371,9 +371,59 @@ func runConverge(r *vs.Rand, i int, seed uint64, out *vs.Out) {
 		}
 		foreign = false
 	}
+	// a third of the scenarios have a history: the parent's image changes twice (the children get a second and a third
+	// generation), then somebody deletes the first child and puts a same-named, drifted object of generation 1 in its place
+	// (not with a rolling strategy: a rollout started by each image change takes its own 2n+4 syncs - the rollout stream's subject)
+	rolling := false
+	for _, c := range cfg.Children {
+		if c.Method == "RollingRecreate" || c.Method == "RollingInPlace" {
+			rolling = true
+		}
+	}
+	history := !foreign && !rolling && r.Chance(33)
+	nRounds := 9
+	disturbed := []int{} // rounds before which somebody other than the controller changed something
+	if history {
+		nRounds = 13
+		disturbed = []int{3, 5, 7}
+	}
 	var rounds []roundInfo
 	var last vs.M
-	for k := 0; k < 9; k++ {
+	for k := 0; k < nRounds; k++ {
+		if history && (k == 3 || k == 5) {
+			sc.setParentImage(fmt.Sprintf("v%d", k))
+		}
+		if history && k == 7 {
+			c := cfg.Children[0]
+			puid := objStr(p, "metadata", "uid")
+			for _, o := range sc.w.sim.List(c.group(), c.Resource) {
+				mine := false
+				if refs, ok := o["metadata"].(map[string]interface{})["ownerReferences"].([]interface{}); ok {
+					for _, rf := range refs {
+						if m, ok := rf.(map[string]interface{}); ok && m["uid"] == puid {
+							mine = true
+						}
+					}
+				}
+				if !mine || objStr(o, "metadata", "deletionTimestamp") != "" {
+					continue
+				}
+				md := o["metadata"].(map[string]interface{})
+				for _, f := range []string{"uid", "resourceVersion", "generation", "creationTimestamp"} {
+					delete(md, f)
+				}
+				for _, part := range []string{"spec", "data"} {
+					if m, ok := o[part].(map[string]interface{}); ok {
+						if _, has := m["image"]; has {
+							m["image"] = "drifted"
+						}
+					}
+				}
+				sc.w.sim.Remove(c.group(), c.Resource, objStr(o, "metadata", "namespace"), objStr(o, "metadata", "name"))
+				sc.w.sim.Put(c.group(), c.Resource, o)
+				break
+			}
+		}
 		line, ri := sc.round(i, seed, k, true, out, "converge")
 		rounds = append(rounds, ri)
 		last = line
@@ -382,7 +432,7 @@ func runConverge(r *vs.Rand, i int, seed uint64, out *vs.Out) {
 	out.Line(vs.M{"kind": "rounds", "mode": "converge", "case": i, "seed": seed, "cfg": cfg, "rounds": rounds,
 		"foreign": foreign, "parentDeleting": deleting, "owned": owned, "desired": desired,
 		"ownedObjs": ownedObjs, "desiredObjs": desiredObjs, "lastHook": lastHook, "ssa": cfg.SSA,
-		"hookMode": objStr(p, "spec", "hookMode"), "replicas": objInt(p, "spec", "replicas")})
+		"hookMode": objStr(p, "spec", "hookMode"), "replicas": objInt(p, "spec", "replicas"), "disturbed": disturbed})
 }
 
 func runRollout(r *vs.Rand, i int, seed uint64, out *vs.Out, crash bool) {
